@@ -18,6 +18,65 @@ NOT_DECIDED = ["outcome of std::sort on concrete metric values (ties, NaN)"]
 ASSUMPTIONS = ["std::sort orders by the given comparator", "std::tuple compares lexicographically"]
 
 
+def ranking_comparator(ctx):
+    """sortDescWithKillPrefs orders by (preference, key) - shared by C03 (preference classes) and C09 (metric order inside a class)."""
+    P = ctx.prog
+    # ---- 2. the comparator
+    n_cmp = 0
+    for f in P.fns.values():
+        if f.pq != "Oomd::OomdContext::sortDescWithKillPrefs":
+            continue
+        ctx.use(f)
+        lams = P.lambdas_in(f)
+        sorts = f.calls("std::sort", "std::stable_sort")
+        if len(sorts) == 2 and len(lams) >= 2:
+            # two-pass form: order by key, then bring the preference classes together - correct only if the second pass keeps the
+            # key order inside a class, i.e. is a stable sort
+            second = max(sorts, key=lambda i_: (f.nodes[i_].get("line", 0), f.nodes[i_].get("col", 0)))
+            ctx.check(f.nodes[second].get("cname") == "stable_sort", "sortDesc-second-pass-stable", "call-site", f.loc(second),
+                      "the pass that groups by preference is a stable sort (key order survives inside a preference class)",
+                      "the ranking sorts by key and then sorts again by preference with %s, which is not stable: among equally preferred siblings the "
+                      "metric order is lost (in practice for more than 16 candidates)" % f.nodes[second].get("cname"))
+            n_cmp += 3
+            continue
+        ctx.check(len(sorts) == 1 and len(lams) >= 1, "sortDesc-uses-one-comparator", "anchor", f.loc(),
+                  "one std::sort with one comparator", "expected one std::sort with a closure comparator")
+        for l in lams:
+            ctx.use(l)
+            pa = [p["name"] for p in l.params]
+            for r in returns(l):
+                n_cmp += 1
+                top = l.nodes[l.strip(l.nodes[r]["val"])]
+                ok, why = False, "comparator is not a tuple comparison"
+                # operator> / operator< on two make_tuple calls (C++20: rewritten through <=>)
+                op, lhs, rhs = None, None, None
+                if top["k"] == "bin" and top["op"] in (">", "<"):
+                    op, lhs, rhs = top["op"], top["l"], top["r"]
+                elif top["k"] == "call" and top.get("op") in (">", "<") and len(top.get("args", [])) == 2:
+                    op, lhs, rhs = top["op"], top["args"][0], top["args"][1]
+                if op:
+                    L, R = l.nodes[l.strip(lhs)], l.nodes[l.strip(rhs)]
+                    if L["k"] == "call" and R["k"] == "call" and L.get("cname") == "make_tuple" == R.get("cname") \
+                            and len(L["args"]) == 2 == len(R["args"]):
+                        l0, l1 = l.text(L["args"][0]), l.text(L["args"][1])
+                        r0, r1 = l.text(R["args"][0]), l.text(R["args"][1])
+                        pref = r"^%s\.get\(\)\.kill_preference\([^)]*\)\.value_or\(Oomd::KillPreference::NORMAL\)$"
+                        first, second = (pa[0], pa[1]) if op == ">" else (pa[1], pa[0])
+                        if not re.match(pref % re.escape(first), l0) or not re.match(pref % re.escape(second), r0):
+                            why = "first tuple element is not the kill preference (NORMAL default) of the element being ranked higher: %s vs %s" % (l0, r0)
+                        elif "kill_preference" in l1 or "kill_preference" in r1:
+                            why = "metric key mentions the preference"
+                        elif first + ".get()" not in l1 or second + ".get()" not in r1:
+                            why = "keys are not computed from the respective elements: %s / %s" % (l1, r1)
+                        else:
+                            ok = True
+                ctx.check(ok, "comparator:preference-dominates-metric", "expression-tree", l.loc(r),
+                          "sorts descending by (preference, key) with the preference first", why)
+    ctx.counters["comparator_instances"] = n_cmp
+    ctx.floor("comparator_instances", 3, "instantiated sortDescWithKillPrefs comparators")
+
+
+
 def kill_preference_reader(ctx):
     """prefer/avoid xattrs -> KillPreference (shared by C03 and C15)."""
     P = ctx.prog
@@ -126,49 +185,7 @@ def run(ctx):
                   "enum-order:KillPreference", "enum-values", "oomd/include/Types.h",
                   "PREFER > NORMAL > AVOID", "KillPreference values are %s" % v)
 
-    # ---- 2. the comparator
-    n_cmp = 0
-    for f in P.fns.values():
-        if f.pq != "Oomd::OomdContext::sortDescWithKillPrefs":
-            continue
-        ctx.use(f)
-        lams = P.lambdas_in(f)
-        sorts = f.calls("std::sort", "std::stable_sort")
-        ctx.check(len(sorts) == 1 and len(lams) >= 1, "sortDesc-uses-one-comparator", "anchor", f.loc(),
-                  "one std::sort with one comparator", "expected one std::sort with a closure comparator")
-        for l in lams:
-            ctx.use(l)
-            pa = [p["name"] for p in l.params]
-            for r in returns(l):
-                n_cmp += 1
-                top = l.nodes[l.strip(l.nodes[r]["val"])]
-                ok, why = False, "comparator is not a tuple comparison"
-                # operator> / operator< on two make_tuple calls (C++20: rewritten through <=>)
-                op, lhs, rhs = None, None, None
-                if top["k"] == "bin" and top["op"] in (">", "<"):
-                    op, lhs, rhs = top["op"], top["l"], top["r"]
-                elif top["k"] == "call" and top.get("op") in (">", "<") and len(top.get("args", [])) == 2:
-                    op, lhs, rhs = top["op"], top["args"][0], top["args"][1]
-                if op:
-                    L, R = l.nodes[l.strip(lhs)], l.nodes[l.strip(rhs)]
-                    if L["k"] == "call" and R["k"] == "call" and L.get("cname") == "make_tuple" == R.get("cname") \
-                            and len(L["args"]) == 2 == len(R["args"]):
-                        l0, l1 = l.text(L["args"][0]), l.text(L["args"][1])
-                        r0, r1 = l.text(R["args"][0]), l.text(R["args"][1])
-                        pref = r"^%s\.get\(\)\.kill_preference\([^)]*\)\.value_or\(Oomd::KillPreference::NORMAL\)$"
-                        first, second = (pa[0], pa[1]) if op == ">" else (pa[1], pa[0])
-                        if not re.match(pref % re.escape(first), l0) or not re.match(pref % re.escape(second), r0):
-                            why = "first tuple element is not the kill preference (NORMAL default) of the element being ranked higher: %s vs %s" % (l0, r0)
-                        elif "kill_preference" in l1 or "kill_preference" in r1:
-                            why = "metric key mentions the preference"
-                        elif first + ".get()" not in l1 or second + ".get()" not in r1:
-                            why = "keys are not computed from the respective elements: %s / %s" % (l1, r1)
-                        else:
-                            ok = True
-                ctx.check(ok, "comparator:preference-dominates-metric", "expression-tree", l.loc(r),
-                          "sorts descending by (preference, key) with the preference first", why)
-    ctx.counters["comparator_instances"] = n_cmp
-    ctx.floor("comparator_instances", 3, "instantiated sortDescWithKillPrefs comparators")
+    ranking_comparator(ctx)
 
     # ---- 3. all rank overrides go through it
     ranks = [f for f in P.fns.values() if f.name == "rankForKilling"]
@@ -264,6 +281,46 @@ def run(ctx):
             ctx.check(forward_iteration(f, l), "push-loop-forward:" + short(f), "loop-shape", f.loc(l["stmt"]),
                       "pushes in vector order", "push loop is not a forward traversal")
     ctx.floor("push_sites", 2, "candidate push sites")
+    # a victim is killed as a unit: getAndTryToKillPids always goes on into every child cgroup (that is what keeps a
+    # memory.oom.group subtree whole - the DFS stops above it, the kill does not)
+    gk = ctx.fn1("Oomd::BaseKillPlugin::getAndTryToKillPids")
+    own = gk.calls("tryToKillPids")
+    chq = [i for i in gk.calls("children") if "target" in gk.text(gk.nodes[i].get("recv", -1))]
+    rec = gk.calls("getAndTryToKillPids")
+    ctx.counters["subtree_kill_sites"] = len(own) + len(chq) + len(rec)
+    ctx.floor("subtree_kill_sites", 3, "own-pid kill, children() and recursion in getAndTryToKillPids")
+    ev_ = {i: [("set", "own-signalled")] for i in own}
+    ev_.update({i: [("set", "descended")] for i in chq})
+    fgk = Flow(P, gk, events=ev_, cg=ctx.cg)
+    badr = []
+    for kind, node, b, parts in fgk.exits():
+        if kind not in ("return", "fallthrough"):
+            continue
+        for st in parts.values():
+            if "own-signalled" in st.may and "descended" not in st.must:
+                badr.append(gk.loc(node) if node is not None else kind)
+    ctx.check(bool(chq) and not badr, "subtree-killed-as-a-unit:always-descends", "must_follow", badr[0] if badr else gk.loc(),
+              "after the victim's own processes the kill always continues into its children",
+              "getAndTryToKillPids can return (%s) after signalling the cgroup's own processes without looking at its children: a memory.oom.group "
+              "cgroup whose processes live in child cgroups is not killed as a unit (and, with nothing signalled, oomd falls back to a worse-ranked "
+              "victim)" % ", ".join(sorted(set(badr))))
+    for i in chq:
+        cfg = sorted(k for k, p in fgk.guards(i) if "this->" in k)
+        ctx.check(not cfg, "subtree-killed-as-a-unit:unconditional", "guarded_by", gk.loc(i), "the descent does not depend on the plugin's configuration",
+                  "the descent into the children is conditioned on %s" % cfg)
+    lk = [l for l in loops(gk) if l["stmt"] is not None and gk.nodes[l["stmt"]]["k"] == "rangefor" and any(gk.pos_of(i)[0] in l["body"] for i in rec)]
+    if len(lk) == 1:
+        no_early_exit(ctx, gk, lk[0], "subtree-killed-as-a-unit:every-child", "children")
+        fch = iter_flow(ctx, gk, lk[0], {i: [("set", "recursed")] for i in rec}, edge_tokens=lambda k, p: ["child-open"] if (k.startswith("childCtx") and p is True) else None)
+        okc = True
+        for b in back_sources(lk[0]):
+            for st in (fch.OUT.get(b) or {}).values():
+                if "child-open" in st.may and "child-open" in st.must and "recursed" not in st.must:
+                    okc = False
+        ctx.check(okc, "subtree-killed-as-a-unit:recurse-into-each-open-child", "must_follow", gk.loc(rec[0]) if rec else gk.loc(), "every child that could be opened is killed recursively",
+                  "a child context that was obtained is not killed")
+    else:
+        ctx.broken("subtree-killed-as-a-unit:every-child", "anchor", gk.loc(), "expected one range-for over the children that recurses")
     # the fallback stack survives a deferred prekill hook in the same order: saved bottom-to-top, restored bottom-to-top
     rfh = ctx.fn1("Oomd::BaseKillPlugin::resumeFromPrekillHook")
     n_sr = 0
